@@ -314,8 +314,9 @@ class Outcome:
         for k in sorted(printed_known):
             print("KNOWN-FINDING: property=%s %s :: %s" % (self.pid, k, known_keys[k]["what"]))
         rc = 0
-        os.makedirs(os.path.join(VERIF, "evidence"), exist_ok=True)
-        rdir = os.path.join(VERIF, "evidence", "replay")
+        evdir = os.environ.get("VERIF_EVIDENCE_DIR") or os.path.join(VERIF, "evidence")
+        os.makedirs(evdir, exist_ok=True)
+        rdir = os.path.join(evdir, "replay")
         seen = set()
         for i, v in enumerate(new):
             if v["key"] in seen:
@@ -348,7 +349,7 @@ class Outcome:
         ev = dict(property_id=self.pid, tier=self.tier, seed=seed(), level=self.level, coverage=cov,
                   assumptions=self.assumptions, wall_s=round(time.time() - self.t0, 2),
                   violations=len(seen), repo_tree=tree_hash()[:16])
-        with open(os.path.join(VERIF, "evidence", "%s.json" % self.pid), "w") as fh:
+        with open(os.path.join(evdir, "%s.json" % self.pid), "w") as fh:
             json.dump(ev, fh, indent=1, default=str)
         return rc
 
